@@ -33,14 +33,20 @@ def rt_case(draw):
                                           coords=draw(st.sampled_from(["in-cell", "anywhere"])), pair=False))
     for k in M.KINDS:
         spec[k + "_coeffs"] = []
-    # CIF knows elements only: one type per element
-    els = [spec["type_elements"][t] for t in spec["atom_types"]]
-    types = list(dict.fromkeys(els))
-    spec["type_elements"], spec["type_labels"] = types, types
-    from mofun.atomic_masses import ATOMIC_MASSES
-    spec["type_masses"] = [ATOMIC_MASSES[e] for e in types]
-    spec["atom_types"] = [types.index(e) for e in els]
-    spec["groups"] = [0] * len(els)
+    # CIF knows elements only.  Half of the structures have one type per element (as after loading a CIF), the others keep
+    # their typed form with several atom types per element (as after loading a LAMMPS file or inserting a typed pattern)
+    if draw(st.booleans()):
+        els = [spec["type_elements"][t] for t in spec["atom_types"]]
+        types = list(dict.fromkeys(els))
+        spec["type_elements"], spec["type_labels"] = types, types
+        from mofun.atomic_masses import ATOMIC_MASSES
+        spec["type_masses"] = [ATOMIC_MASSES[e] for e in types]
+        spec["atom_types"] = [types.index(e) for e in els]
+    elif len(spec["type_elements"]) > 1 and draw(st.booleans()):
+        spec["type_elements"][1] = spec["type_elements"][0]          # make sure two types share an element
+        from mofun.atomic_masses import ATOMIC_MASSES
+        spec["type_masses"][1] = round(ATOMIC_MASSES[spec["type_elements"][0]] + 0.001, 6)
+    spec["groups"] = [0] * len(spec["pos"])
     # torsion columns: one label set shared by dihedrals and impropers is what the format can carry
     spec["extra_improper_labels"], spec["extra_improper_fields"] = [], []
     if draw(st.integers(0, 3)) == 0 and spec["pos"]:
